@@ -380,29 +380,43 @@ theorem selsC (K : CTX c X) : ∀ (xs : List Sel) (st : St), K.Inv st → K.J (K
 end
 
 
-theorem varDefC (K : CTX c X) (v : VarDef) (st : St) (hi : K.Inv st) :
+theorem varDefC (K : CTX c X) (v : VarDef) (st : St) (hi : K.Inv st) (hj : K.J (K.ctx st)) :
     PX K (gnVarDef K.down (K.ctx st) v) st (visitVarDef c v st) := by
   rw [visitVarDef, gnVarDef]
+  have hj1 : K.J (K.down (.varDef v) (K.ctx st)) := K.keepJ _ _ rfl hj
+  have tyMI : ∀ st', MI K st' (visitNode c (.typeNode v.type) id st') :=
+    fun st' => visitNode_MI K _ _ _ rfl (fun _ hi => ⟨hi, Nat.le_refl _⟩)
+  -- the type node, then the directives, from a state whose context is that of the variable definition
+  have tail : ∀ st', K.Inv st' → K.ctx st' = K.down (.varDef v) (K.ctx st) →
+      PX K ((.typeNode v.type, K.down (.typeNode v.type) (K.down (.varDef v) (K.ctx st))) ::
+        gnDirs K.down (K.down (.varDef v) (K.ctx st)) v.dirs) st'
+        (visitDirectives c v.dirs (visitNode c (.typeNode v.type) id st')) := by
+    intro st' i' c'
+    obtain ⟨i2, m2⟩ := tyMI st' i'
+    obtain ⟨_, m3⟩ := visitDirectivesG (algM K).toV v.dirs (visitNode c (.typeNode v.type) id st') i2
+    have pt := leafC K (.typeNode v.type) st' rfl i' (by intro h; cases h)
+    rw [c'] at pt
+    exact PX.seq K [_] _ st' _ _ m2 m3 pt (fun e => by
+      have := dirsC K v.dirs (visitNode c (.typeNode v.type) id st') i2 (by rw [e, c']; exact hj1)
+      rwa [e, c'] at this)
   refine PX.node K _ _ _ st rfl hi (by intro h; cases h) (noq K (by intro fs e; cases e)) (fun st1 => ?_) (fun st1 i1 c1 => ?_)
   · cases hd : v.default with
-    | none => exact visitNode_MI K _ _ _ rfl (fun _ hi => ⟨hi, Nat.le_refl _⟩)
+    | none => exact MI.trans (tyMI st1) (visitDirectivesG (algM K).toV v.dirs _)
     | some dv =>
       simp only
-      exact MI.trans (visitValueG (algM K) dv st1) (visitNode_MI K _ _ _ rfl (fun _ hi => ⟨hi, Nat.le_refl _⟩))
+      exact MI.trans (MI.trans (visitValueG (algM K) dv st1) (tyMI _)) (visitDirectivesG (algM K).toV v.dirs _)
   · cases hd : v.default with
     | none =>
       simp only [List.nil_append]
-      have := leafC K (.typeNode v.type) st1 rfl i1 (by intro h; cases h)
-      rwa [c1] at this
+      exact tail st1 i1 c1
     | some dv =>
       simp only
       obtain ⟨i2, m2⟩ := visitValueG (algM K) dv st1 i1
-      obtain ⟨_, m3⟩ := visitNode_MI K (.typeNode v.type) id (visitValue c dv st1) rfl (fun _ hi => ⟨hi, Nat.le_refl _⟩) i2
+      obtain ⟨i3, m3⟩ := tyMI (visitValue c dv st1) i2
+      obtain ⟨_, m4⟩ := visitDirectivesG (algM K).toV v.dirs (visitNode c (.typeNode v.type) id (visitValue c dv st1)) i3
       have pv := valueC K dv st1 i1
       rw [c1] at pv
-      exact PX.seq K _ _ st1 _ _ m2 m3 pv (fun e => by
-        have := leafC K (.typeNode v.type) (visitValue c dv st1) rfl i2 (by intro h; cases h)
-        rwa [e, c1] at this)
+      exact PX.seq K _ _ st1 _ _ m2 (Nat.le_trans m3 m4) pv (fun e => tail _ i2 (by rw [e, c1]))
 
 theorem visitVarDef_MI (K : CTX c X) (v : VarDef) (st : St) : MI K st (visitVarDef c v st) :=
   visitVarDefG (algM K).toV v st
@@ -422,8 +436,8 @@ theorem defC (K : CTX c X) (d : Def) (st : St) (hi : K.Inv st) (hj : K.J (K.ctx 
     obtain ⟨_, ms⟩ := visitNode_MI K (.selectionSet ssid sels) (visitSels c sels)
       (visitDirectives c dirs (vars.foldl (fun st v => visitVarDef c v st) st1)) rfl
       (fun st => visitSelsG (algM K).toV sels st) id_
-    have pv := foldlC K (fun _ => True) (visitVarDef c) (fun x v => gnVarDef K.down x v) (visitVarDef_MI K)
-      (fun v st hi _ => varDefC K v st hi) vars st1 i1 trivial
+    have pv := foldlC K K.J (visitVarDef c) (fun x v => gnVarDef K.down x v) (visitVarDef_MI K)
+      (fun v st hi hj => varDefC K v st hi hj) vars st1 i1 (by rw [c1]; exact hj1)
     rw [c1] at pv
     have pvd := PX.seq K _ (gnDirs K.down (K.down (.operation kind name vars dirs sels) (K.ctx st)) dirs) st1 _ _ mv md pv
       (fun e => by
